@@ -34,6 +34,10 @@ enum PageFault {
     /// first attempt: the coordinator goes down (all its connections reset, listener closed) without
     /// answering, and comes back 150 ms later
     NodeDown,
+    /// the coordinator answers UNAVAILABLE (1 replica alive) as long as the request asks for more than consistency
+    /// ONE; the statement asks for QUORUM and the session's policy is DowngradingConsistencyRetryPolicy, which
+    /// retries at ONE: the retry is served, so no row may be lost and no error surface
+    UnavailableAboveOne,
 }
 
 #[derive(Clone, Debug)]
@@ -160,6 +164,19 @@ impl Handler for Pager {
             PageFault::NonRetriedError => {
                 drop(st);
                 rq.error(ErrorBody::simple(errcode::INVALID, "scripted non-retried failure"));
+            }
+            PageFault::UnavailableAboveOne
+                if match &*rq.request {
+                    Request::Query { params, .. } | Request::Execute { params, .. } => params.consistency != 1,
+                    _ => false,
+                } =>
+            {
+                drop(st);
+                let cl = match &*rq.request {
+                    Request::Query { params, .. } | Request::Execute { params, .. } => params.consistency,
+                    _ => 0,
+                };
+                rq.error(ErrorBody { code: errcode::UNAVAILABLE, message: "unavailable".into(), extra: ErrorExtra::Unavailable { cl, required: 2, alive: 1 } });
             }
             PageFault::NodeDown if attempt == 0 => {
                 drop(st);
@@ -322,7 +339,10 @@ async fn run_script(s: Arc<Script>) -> ScriptOut {
     let cluster = MockCluster::start(spec, handler.clone()).await;
     *handler.cluster.lock().unwrap() = Some(cluster.clone());
     let mut out = ScriptOut { delivered: vec![], error: None, ended: false, dropped: false, requested: vec![], node_violations: vec![], protocol_violations: vec![], build_error: None, hung: false };
-    let profile = if s.fallthrough {
+    let downgrading = s.faults.iter().any(|f| *f == PageFault::UnavailableAboveOne);
+    let profile = if downgrading {
+        ExecutionProfile::builder().retry_policy(Arc::new(scylla::policies::retry::DowngradingConsistencyRetryPolicy::new())).request_timeout(None).build()
+    } else if s.fallthrough {
         ExecutionProfile::builder().retry_policy(Arc::new(FallthroughRetryPolicy::new())).request_timeout(None).build()
     } else {
         ExecutionProfile::builder().retry_policy(Arc::new(DefaultRetryPolicy::new())).request_timeout(None).build()
@@ -347,6 +367,9 @@ async fn run_script(s: Arc<Script>) -> ScriptOut {
                 Ok(mut p) => {
                     p.set_page_size(s.page_size);
                     p.set_is_idempotent(s.idempotent);
+                    if downgrading {
+                        p.set_consistency(scylla::statement::Consistency::Quorum);
+                    }
                     session.execute_iter(p, (s.qid as i64,)).await
                 }
             }
@@ -354,6 +377,9 @@ async fn run_script(s: Arc<Script>) -> ScriptOut {
             let mut st = scylla::statement::Statement::new(format!("{PAGED_PREFIX}{}", s.qid));
             st.set_page_size(s.page_size);
             st.set_is_idempotent(s.idempotent);
+            if downgrading {
+                st.set_consistency(scylla::statement::Consistency::Quorum);
+            }
             session.query_iter(st, ()).await
         };
         let mut delivered = Vec::new();
@@ -739,7 +765,7 @@ pub fn run(ctx: &Ctx) -> Outcome {
     let mut scripts: Vec<Script> = Vec::new();
     let mut qid = 1u64;
     // fault enumeration: every fault kind at every page index of scripts of up to 6 pages
-    for f in [PageFault::RetryableError, PageFault::NonRetriedError, PageFault::CutMidFrame, PageFault::Delay, PageFault::Unprepared, PageFault::NodeDown] {
+    for f in [PageFault::RetryableError, PageFault::NonRetriedError, PageFault::CutMidFrame, PageFault::Delay, PageFault::Unprepared, PageFault::NodeDown, PageFault::UnavailableAboveOne] {
         for i in 0..6 {
             for _ in 0..(if ctx.quick() { 2 } else { 12 }) {
                 scripts.push(gen_script(&mut rng, qid, Some((i, f))));
@@ -762,6 +788,7 @@ pub fn run(ctx: &Ctx) -> Outcome {
             "Delay" => PageFault::Delay,
             "Unprepared" => PageFault::Unprepared,
             "NodeDown" => PageFault::NodeDown,
+            "UnavailableAboveOne" => PageFault::UnavailableAboveOne,
             _ => PageFault::None,
         };
         let s = Script {
@@ -843,6 +870,7 @@ pub fn run(ctx: &Ctx) -> Outcome {
         "fault:Delay",
         "fault:Unprepared",
         "fault:NodeDown",
+        "fault:UnavailableAboveOne",
         "paging-state:zero-length-with-more-pages",
         "paging-state:same-bytes-on-consecutive-pages",
         "fault:late-answer-after-client-timeout",
